@@ -4,12 +4,16 @@ use std::sync::atomic::{AtomicUsize, Ordering};
 
 pub struct Counting;
 static MAX: AtomicUsize = AtomicUsize::new(0);
+/// sum of the requests of at least `BIG` bytes since `reset_sum` (buffers, not message strings)
+static SUM: AtomicUsize = AtomicUsize::new(0);
+pub const BIG: usize = 256;
+#[inline] fn note(n: usize) { MAX.fetch_max(n, Ordering::Relaxed); if n >= BIG { SUM.fetch_add(n, Ordering::Relaxed); } }
 
 unsafe impl GlobalAlloc for Counting {
-    unsafe fn alloc(&self, l: Layout) -> *mut u8 { MAX.fetch_max(l.size(), Ordering::Relaxed); System.alloc(l) }
-    unsafe fn alloc_zeroed(&self, l: Layout) -> *mut u8 { MAX.fetch_max(l.size(), Ordering::Relaxed); System.alloc_zeroed(l) }
+    unsafe fn alloc(&self, l: Layout) -> *mut u8 { note(l.size()); System.alloc(l) }
+    unsafe fn alloc_zeroed(&self, l: Layout) -> *mut u8 { note(l.size()); System.alloc_zeroed(l) }
     unsafe fn dealloc(&self, p: *mut u8, l: Layout) { System.dealloc(p, l) }
-    unsafe fn realloc(&self, p: *mut u8, l: Layout, n: usize) -> *mut u8 { MAX.fetch_max(n, Ordering::Relaxed); System.realloc(p, l, n) }
+    unsafe fn realloc(&self, p: *mut u8, l: Layout, n: usize) -> *mut u8 { note(n); System.realloc(p, l, n) }
 }
 
 #[global_allocator]
@@ -17,3 +21,5 @@ static A: Counting = Counting;
 
 pub fn reset() { MAX.store(0, Ordering::Relaxed); }
 pub fn max() -> usize { MAX.load(Ordering::Relaxed) }
+pub fn reset_sum() { SUM.store(0, Ordering::Relaxed); }
+pub fn sum() -> usize { SUM.load(Ordering::Relaxed) }
